@@ -34,7 +34,7 @@ def build(ctx):
                        "random access (get/set/size), the one-step cursor protocol, cursor ranges/sub-ranges and visiting (recording visitor) are all checked under extension here"]
     plan = [("vs_msg_le.xml", "17", "checked"), ("vs_msg_be.xml", "20", "checked"), ("vs_msg2_le.xml", "17", "checked")] if ctx.quick else \
         [("vs_msg_le.xml", "17", "checked"), ("vs_msg_be.xml", "17", "checked"), ("vs_msg_le.xml", "20", "checked"), ("vs_msg_be.xml", "20", "checked"),
-         ("vs_msg_le.xml", "11", "checked"), ("vs_msg_be.xml", "14", "checked"), ("vs_msg_le.xml", "17", "unchecked"), ("vs_msg2_le.xml", "17", "checked"), ("vs_msg2_be.xml", "20", "checked")]
+         ("vs_msg_le.xml", "11", "checked"), ("vs_msg_be.xml", "14", "checked"), ("vs_msg_le.xml", "17", "unchecked"), ("vs_msg2_le.xml", "17", "checked"), ("vs_msg2_be.xml", "20", "checked"), ("vs_exotic.xml", "17", "checked")]
     plan = hgen.plan_env(plan)
     for (xml, std, mode) in plan:
         sch, inc = hgen.gen_headers(ctx, xml)
